@@ -1,5 +1,5 @@
 (* Driver for the C07 models.  usage: modelrun_c07 acc|con|w < cases > results
-   acc: <ipc 0|1> ; ops ; beh0 | beh1 ... ; accept4 answers ; alloc answers ; open answers ; kinds
+   acc: <ipc 0|1> <accept re-arm variant 0|1> ; ops ; beh0 | beh1 ... ; accept4 answers ; alloc answers ; open answers ; kinds
         ops: Af Ab At C N T R<0|1> V<msg>/<msg>... (msg = ids separated by commas, - = none)
    con: <tcp 0|1> <pipe-fix variant 0|1> ; ops ; behs ; socket answers ; connect answers ; SO_ERROR answers ; event bits
         ops: T B b P<namelen> Q<flags>,<namelen>,<nul 0|1> C R
@@ -37,13 +37,14 @@ let behs_of (parse : string -> 'a) (s : string) : nat -> 'a list =
 let acc_case (line : string) : string =
   match List.map String.trim (String.split_on_char ';' line) with
   | [ipc; ops; behs; ao; al; oo; kinds] ->
-      let ipc = ipc = "1" in
+      let (ipc, rearm) = match split_on ' ' ipc with
+        | [i; r] -> (i = "1", r = "1") | [i] -> (i = "1", false) | _ -> failwith "bad acc head" in
       let ops = List.map parse_aop (split_on ' ' ops) in
       let beh = behs_of parse_aop behs in
       let bools s = List.map (fun x -> x = "1") (split_on ' ' s) in
       let karr = Array.of_list (List.map int_of_string (split_on ' ' kinds)) in
       let kind f = let i = iz f in if i >= 0 && i < Array.length karr then zi karr.(i) else zi 0 in
-      let x0 = init ipc (List.map parse_acc (split_on ' ' ao)) (bools al) (bools oo) in
+      let x0 = init_v rearm ipc (List.map parse_acc (split_on ' ' ao)) (bools al) (bools oo) in
       let (_, evs) = run kind x0 ops beh in
       let buf = Buffer.create 256 in
       let later = ref [] in
